@@ -54,6 +54,7 @@ type ShardResult struct {
 	HarnessErr   string               `json:"harness_err,omitempty"`
 	Conf         []ConfCase           `json:"conf,omitempty"`
 	confSeen     int
+	warmSeen     int
 }
 
 func newShardResult() *ShardResult {
